@@ -2,6 +2,7 @@ package main
 
 import (
 	"bytes"
+	"encoding/json"
 	"fmt"
 	"os"
 	"os/exec"
@@ -341,6 +342,17 @@ func c15() {
 			k := strings.LastIndex(yamlText, "  - action:")
 			yamlText = yamlText[:k] + pad(padTo) + yamlText[k:]
 			run.Count("valid_runs_with_padded_large_file", 1)
+		}
+		if i%8 == 7 && padTo == 0 {
+			// the marshalled JSON form of the policy (JSON is YAML) under a name that says so
+			type wrapper struct {
+				Seccomp *seccomp.Policy `json:"seccomp"`
+			}
+			if jb, err := json.Marshal(wrapper{spec.Policy()}); err == nil {
+				pp = filepath.Join(dir, []string{"policy.json", "P.JSON", "seccomp.yml.json", "profile.Json"}[(i/8)%4])
+				yamlText = string(jb)
+				run.Count("valid_runs_with_json_text_in_a_json_named_file", 1)
+			}
 		}
 		os.WriteFile(pp, []byte(yamlText), 0o644)
 		cc := &vlib.ChildCase{}
